@@ -3,12 +3,20 @@ import copy
 
 from gen import FIELDS, INTS, FLOATS
 
+# what the elements of the arrays a `$push` sorts and cuts are ranked by: few values, so that ties
+# (a stable sort keeps their order) and equal arrays before / after are common
+RANKS = [-2, 0, 1, 2, 3, 5, 7, 8, 2.5, 1.0]
+
 
 class UpdateGen(object):
     def __init__(self, g, malformed=0.05):
         self.g = g
         self.r = g.r
         self.malformed = malformed
+        # probability that a modifier document ($push: $each / $position / $sort / $slice, and an
+        # unrecognized clause among them) is spelled in another key order than the usual one:
+        # "the order in which the modifiers appear is immaterial"
+        self.respell = 0.0
         self.ops_used = {}
 
     def _note(self, op):
@@ -16,6 +24,42 @@ class UpdateGen(object):
 
     def num(self):
         return self.r.choice(INTS + FLOATS)
+
+    def spelled(self, d):
+        """the same document, with probability `respell` its keys in another order"""
+        if len(d) < 2 or not self.respell or self.r.random() >= self.respell:
+            return d
+        keys = list(d)
+        self.r.shuffle(keys)
+        self._note('respelled')
+        return {k: d[k] for k in keys}
+
+    def ranked_push(self, kind, size=3):
+        """the operand of a `$push` onto an array the modifiers can really reorder and cut: `kind`
+        'num' (an array of numbers, `$sort: ±1`) or 'doc' (an array of {k: number, v: ...}
+        sub-documents, `$sort: {k: ±1}`, now and then by the mixed field v or a missing one),
+        `size` = roughly how long the array is.  Every subset of $position / $sort / $slice next to
+        $each, the bounds around the length of the array after the insertion, spelled in any order
+        (`respell`)."""
+        r = self.r
+        n = r.choice([0, 1, 1, 2, 2, 3])
+        if kind == 'num':
+            mod = {'$each': [r.choice(RANKS) for _ in range(n)]}
+        else:
+            mod = {'$each': [{'k': r.choice(RANKS), 'v': r.choice([0, 5, 'x'])} for _ in range(n)]}
+        if r.random() < 0.4:
+            mod['$position'] = r.choice([0, 1, 2, -1, size, size + 3])
+        if r.random() < 0.75:
+            if kind == 'num':
+                mod['$sort'] = r.choice([1, -1])
+            else:
+                mod['$sort'] = {'k' if r.random() < 0.85 else r.choice(['v', 'z']): r.choice([1, -1])}
+        if r.random() < 0.75:
+            total = size + n
+            mod['$slice'] = r.choice([0, 1, 2, -1, -2, total - 1, 1 - total, total, -total,
+                                      total + 2, max(total // 2, 1), -max(total // 2, 1)])
+        self._note('ranked-push')
+        return self.spelled(mod)
 
     def path(self, doc, want=None):
         """a path, mostly existing in doc; want='arr' prefers paths holding arrays, 'num' numbers"""
@@ -66,7 +110,14 @@ class UpdateGen(object):
             if x == 'incstr':
                 return '$inc', {self.path(doc): 'x'}
             if x == 'pushclause':
-                return '$push', {self.path(doc, 'arr'): {'$each': [1], '$bogus': 1}}
+                mod = {'$each': [1], '$bogus': 1}
+                if self.respell:
+                    # the unrecognized clause among valid ones, in any place
+                    if r.random() < 0.5:
+                        mod['$sort'] = r.choice([1, -1])
+                    if r.random() < 0.5:
+                        mod['$slice'] = r.choice([0, 1, 2, -1, -2, 5])
+                return '$push', {self.path(doc, 'arr'): self.spelled(mod)}
             if x == 'renamedots':
                 return '$rename', {'a.b': 'c'}
             if x == 'popval':
@@ -106,7 +157,7 @@ class UpdateGen(object):
                             mod['$sort'] = {'k': r.choice([1, -1])}
                     if r.random() < 0.4:
                         mod['$slice'] = r.choice([0, 1, 2, -1, -2, 5])
-                    body[p] = mod
+                    body[p] = self.spelled(mod)
             elif k == '$addToSet':
                 p = self.path(doc, 'arr')
                 if r.random() < 0.5:
